@@ -63,11 +63,24 @@ def readRecords (p : Profile) (a : BinArchive) (headerPadding : Nat) :
     | .err er => .err er
     | .panic => .panic
 
+/-- `BinArchiveReader::read_bytes` **as of /repo commit a86b3af** (bin_streams.rs:69-76): an empty
+read succeeds wherever the cursor is; otherwise one positional `BinArchive::read_bytes`
+(`validate_range`), then the cursor advances.
+LOCAL COPY: the shared `Reader.readBytes` (Model/BinStreams.lean) in this branch still transcribes
+the earlier byte-by-byte loop; both agree on every observable of `arc.rs` (result and error
+class), this copy follows the current source. -/
+def readerReadBytes (a : BinArchive) (r : Reader) (count : Nat) : Res (Bytes × Reader) :=
+  if count = 0 then .ok ([], r)                                   -- :70-72
+  else match a.readBytes r.pos count with                         -- :73
+    | .ok v => .ok (v, ⟨r.pos + count⟩)                           -- :74
+    | .err e => .err e
+    | .panic => .panic
+
 /-- The file loop, arc.rs:45-50: `reader.seek(address); reader.read_bytes(size)`; `files.insert`. -/
 def extract (a : BinArchive) : List ArcEntry → UMap Str Bytes → Res (UMap Str Bytes)
   | [], files => .ok files
   | e :: es, files =>
-    match Reader.readBytes a ⟨e.address⟩ e.size with
+    match readerReadBytes a ⟨e.address⟩ e.size with
     | .ok (buffer, _) => extract a es (UMap.insert files e.name buffer)
     | .err er => .err er
     | .panic => .panic
